@@ -489,7 +489,7 @@ package gkvlite
 //@   ensures [C09] other-files: forall f :: f != c.store.file ==> fbytes[f] == old(fbytes[f]) && flen[f] == old(flen[f]) && io.minoff[f] == old(io.minoff[f])
 
 //@ func (*itemLoc).read
-//@   props C01 C02 C14 C19 C15 C17 C07 C09 C05 C04
+//@   props C01 C02 C14 C19 C15 C17 C07 C09 C05 C04 C06
 //@   requires [C05,C18] nolocks: locks == emptyLocks()
 //@   from: C14 item record layout (decoder side of P1); C19 "key-only operations never read a byte of any item's value"; C15 accounting; C07 E1
 //@   requires c != nil && c.store != nil
@@ -514,7 +514,7 @@ package gkvlite
 //@   postulate item-denotes-the-slot: icur != nil ==> ia(icur) == ias[iloc] && ikey(ia(icur)) == ord(icur.Key) && ipri(ia(icur)) == icur.Priority
 
 //@ func (*nodeLoc).read
-//@   props C01 C02 C13 C14 C19 C07 C09
+//@   props C01 C02 C13 C14 C19 C07 C09 C06
 //@   requires [C05,C18] nolocks: locks == emptyLocks()
 //@   from: C14 node record layout (decoder side of P1); C19 (one 52-byte read of the node record, no value bytes); C07 E1
 //@   requires o != nil
